@@ -22,7 +22,7 @@ Call(fn) ==
   /\ want' = [p \in Probes |-> want[p] + IF status[p] = "active" THEN Len(EventsOf(p, fn, 0)) ELSE 0]
   /\ UNCHANGED <<m, status>>
 Next == \/ \E p \in Universe : Activate(p) \/ Deactivate(p)
-        \/ \E fn \in Fns : Call(fn)
+        \/ \E fn \in {x \in Fns : x \in {"f", "g"} \/ \E p \in Universe : x \in Touches(p)} : Call(fn)
 Spec == Init /\ [][Next]_vars
 
 Act == Active(status)
